@@ -1,48 +1,91 @@
-import Rivaas.Spec.OpenAPI
+import Rivaas.Lemmas.OpenAPIDoc
 /-
 C07 — property theorems (generated OpenAPI documents are valid, closed, complete and deterministic).
 -/
 namespace Rivaas.C07
 open Rivaas.OpenAPI
 
+/-! ### `$ref` closure -/
+
+/-- **refs_closed.** Whatever the type environment (recursive, mutually recursive, generic, colliding
+    names), the operations, the version and the validator: every `$ref` of a produced document — in a
+    parameter, a request body, a response or inside a component — is `#/components/schemas/<k>` for a
+    key `k` of `components.schemas`, and resolves as a JSON pointer. -/
+theorem refs_closed (v : Version) (strict : Bool) (V : Option (Doc Schema → Bool)) (env : Env) (ops : List OpIn)
+    (d : Doc Schema) (h : generate v strict V env ops = .ok d) : refsClosed d = true := by
+  obtain ⟨paths, comps, hb, hp⟩ := generate_ok h
+  obtain ⟨rfl, _⟩ := project_ok hp
+  obtain ⟨hops, hcomps, _⟩ := build_post env ops paths comps hb
+  simp only [refsClosed, List.all_eq_true, Doc.allRefs, List.mem_flatMap]
+  rintro r ⟨x, hx, hr⟩
+  rw [projDoc_keys]
+  apply resolves_of_inNames (fun k hk => by
+    simp only [List.mem_map] at hk
+    obtain ⟨ks, hks, rfl⟩ := hk
+    exact (hcomps ks hks).1)
+  have hgood : ∃ y : IR, Good (comps.map (·.1)) y ∧ x = projSchema v y := by
+    rcases mem_projDoc_allSchemas hx with ⟨pi, hpi, mo, hmo, y, hy, rfl⟩ | ⟨ks, hks, rfl⟩
+    · exact ⟨y, hops pi hpi mo hmo y hy, rfl⟩
+    · exact ⟨ks.2, (hcomps ks hks).2, rfl⟩
+  obtain ⟨y, hy, rfl⟩ := hgood
+  have : Tree.All (fun _ : Attrs => True) (InNames (comps.map (·.1))) (projSchema v y) := by
+    cases v <;> exact Tree.All.project (fun _ _ => trivial) y hy
+  exact Tree.All.refs _ this r hr
+
+/-- non-vacuity of the hypothesis `generate … = .ok d`: a route with a parameter generates a document
+    (3.1, validation on with a validator that accepts) -/
+example :
+    (match generate .v31 true (some fun _ => true) []
+        [{ method := s "GET", path := s "/n/:id", summary := [], description := [], opID := [], req := none, resps := [] }] with
+     | .ok d => d.opIds == [s "getNById"] && d.paths.map (·.1) == [s "/n/{id}"]
+     | .error _ => false) = true := by decide
+
 /-! ### component names (K07c) -/
 
-theorem lemma_nameByteOK_iff (c : Char) : nameByteOK c = nameCharOK c := rfl
+/-- **names_wellformed.** Every key of `components.schemas` matches `^[a-zA-Z0-9._-]+$`. -/
+theorem names_wellformed (v : Version) (strict : Bool) (V : Option (Doc Schema → Bool)) (env : Env) (ops : List OpIn)
+    (d : Doc Schema) (h : generate v strict V env ops = .ok d) : namesOK d = true := by
+  obtain ⟨paths, comps, hb, hp⟩ := generate_ok h
+  obtain ⟨rfl, _⟩ := project_ok hp
+  obtain ⟨_, hcomps, _⟩ := build_post env ops paths comps hb
+  simp only [namesOK, List.all_eq_true, projDoc, List.mem_map]
+  rintro ks' ⟨ks, hks, rfl⟩
+  exact (hcomps ks hks).1
 
-/-- every byte `sanitizeComponentName` leaves in a name is allowed in a component key -/
-theorem sanitize_ok (name : B) : (sanitize name).all nameCharOK = true := by
-  simp only [sanitize, List.all_map, List.all_eq_true]
-  intro c _
-  simp only [Function.comp]
-  by_cases h : nameByteOK c = true
-  · simp [h, ← lemma_nameByteOK_iff]
-  · have : nameByteOK '_' = true := by decide
-    simp [h, ← lemma_nameByteOK_iff, this]
+/-- the name function itself: empty (anonymous struct, never registered) or well formed -/
+theorem schemaName_ok (name pkgPath : B) : schemaName name pkgPath = [] ∨ nameOK (schemaName name pkgPath) = true :=
+  schemaName_wellformed name pkgPath
 
-theorem lemma_sanitize_length (name : B) : (sanitize name).length = name.length := by simp [sanitize]
+/-! ### operation ids -/
 
-/-- `schemaName` is empty (anonymous struct: never registered) or matches `^[a-zA-Z0-9._-]+$` -/
-theorem schemaName_wellformed (name pkgPath : B) :
-    schemaName name pkgPath = [] ∨ nameOK (schemaName name pkgPath) = true := by
-  unfold schemaName
-  by_cases h0 : name = []
-  · simp [h0]
-  · right
-    have hne : ∀ x : B, x ≠ [] → nameOK (sanitize x) = true := by
-      intro x hx
-      simp only [nameOK, Bool.and_eq_true, sanitize_ok, and_true]
-      cases x with
-      | nil => exact absurd rfl hx
-      | cons c cs => simp [sanitize]
-    simp only [h0, if_false]
-    split
-    · exact hne _ h0
-    · split
-      · exact hne _ h0
-      · apply hne
-        intro h
-        have := congrArg List.length h
-        simp [s] at this
+theorem lemma_opIds_perm (v : Version) (paths : List (B × PathItem IR)) (comps : List (B × IR)) :
+    List.Perm (projDoc v paths comps).opIds (pathsIds paths) := by
+  simp only [Doc.opIds, Doc.operations, projDoc, List.flatMap_map, List.map_flatMap, pathsIds]
+  apply perm_flatMap_congr
+  intro pi _
+  simp only [List.map_map]
+  refine ((sortByKey_perm _).map _).trans ?_
+  simp only [List.map_map, itemIds]
+  exact List.Perm.of_eq (List.map_congr_left fun mo _ => rfl)
+
+/-- **opids_unique_or_error.** `Generate` returns an error (`duplicate operation ID`) or a document whose
+    operationIds are pairwise different — for generated and custom ids, for operations that are dropped
+    (TRACE, custom methods) or overwritten (same method and path twice). -/
+theorem opids_unique_or_error (v : Version) (strict : Bool) (V : Option (Doc Schema → Bool)) (env : Env)
+    (ops : List OpIn) (d : Doc Schema) (h : generate v strict V env ops = .ok d) : opIdsUnique d = true := by
+  obtain ⟨paths, comps, hb, hp⟩ := generate_ok h
+  obtain ⟨rfl, _⟩ := project_ok hp
+  obtain ⟨_, _, hnd⟩ := build_post env ops paths comps hb
+  rw [opIdsUnique, nodupB_iff]
+  exact (lemma_opIds_perm v paths comps).nodup_iff.2 hnd
+
+/-- the error does occur: two routes whose generated ids coincide -/
+example :
+    (match generate .v30 false none []
+        [{ method := s "GET", path := s "/users/:id", summary := [], description := [], opID := [], req := none, resps := [] },
+         { method := s "GET", path := s "/user/:id", summary := [], description := [], opID := [], req := none, resps := [] }] with
+     | .ok _ => false
+     | .error e => e == .dupOp) = true := by decide
 
 /-- as shipped (before K07c) an instantiated generic type gives a key outside the pattern -/
 theorem schemaNameAsIs_witness :
